@@ -29,6 +29,10 @@ class WorkerBoom(ValueError):
     pass
 
 
+class WouldBlock(Exception):
+    """raised by the pipe model where a real recv() would never return (recorded in bad_use: the obligation that judges it)"""
+
+
 class WorkerBoom2(KeyError):
     pass
 
@@ -52,8 +56,9 @@ class Proc:
 class FaultPipe:
     """parent end of a pipe to worker i: every reply's success flag and every poll() are symbolic"""
 
-    def __init__(self, v, i, queue, log, clock=None):
+    def __init__(self, v, i, queue, log, clock=None, may_be_killed=False):
         self.v, self.i, self.queue, self.log, self.clock = v, i, queue, log, clock
+        self.may_be_killed, self.gone = may_be_killed, False
         self.closed = False
         self.sent, self.pending = [], 0
         self.bad_use = []
@@ -71,6 +76,11 @@ class FaultPipe:
             raise BrokenPipeError(f"worker {self.i} has exited")
         self.sent.append(msg)
         self.pending += 1
+        if msg[0] != "close" and self.may_be_killed and bool(self.v.bool(f"killed{self.i}")):
+            # the worker process is killed while it serves this command: no reply, no error-queue entry, its end of the pipe closes
+            self.dead = self.gone = True
+            self.outcome.append(None)
+            return
         if msg[0] != "close":
             ok = bool(self.v.bool(f"success{self.i}"))
             self.outcome.append(ok)
@@ -106,10 +116,13 @@ class FaultPipe:
         if self.closed:
             self.bad_use.append("recv-on-closed")
             raise OSError("handle is closed")
-        if self.pending <= 0 and self.dead:
+        if self.gone or (self.pending <= 0 and self.dead):
+            self.pending = 0
             raise EOFError(f"worker {self.i} has exited")
         if self.pending <= 0:
             self.bad_use.append("recv-without-pending-reply (would block forever)")
+            if self.may_be_killed:
+                raise WouldBlock("the parent waits on a pipe with no reply pending: this would block forever")
             raise HarnessError("the parent waits on a pipe with no reply pending: this would block forever")
         self.pending -= 1
         k = len(self.sent) - self.pending - 1
@@ -177,14 +190,15 @@ WAIT_OF = {"reset": AsyncState.WAITING_RESET, "step": AsyncState.WAITING_STEP, "
 class Protocol(Case):
     functions = (AsyncPettingZooVecEnv.reset_async, AsyncPettingZooVecEnv.reset_wait, AsyncPettingZooVecEnv.step_async, AsyncPettingZooVecEnv.step_wait,
                  AsyncPettingZooVecEnv.call_async, AsyncPettingZooVecEnv.call_wait, AsyncPettingZooVecEnv.set_attr, AsyncPettingZooVecEnv.close_extras,
-                 AsyncPettingZooVecEnv._poll_pipe_envs, AsyncPettingZooVecEnv._raise_if_errors, AsyncPettingZooVecEnv._assert_is_running)
+                 AsyncPettingZooVecEnv._poll_pipe_envs, AsyncPettingZooVecEnv._raise_if_errors, AsyncPettingZooVecEnv._assert_is_running) + ((AsyncPettingZooVecEnv._recv,) if hasattr(AsyncPettingZooVecEnv, "_recv") else ())
     stubs = ("parent pipes = in-memory objects: poll() and the success flag of every reply are symbolic booleans; a failing reply comes with an error-queue entry",
              "processes = recorders (join / terminate / is_alive)", "observations = empty mapping (payloads are not the subject)")
     outside = ("true concurrency, killed processes, wall-clock bounds and OS-level liveness; whether a worker that never answers makes close() block",)
 
-    def __init__(self, calls, E=2, timeout=None):
+    def __init__(self, calls, E=2, timeout=None, kill=False):
+        self.kill = kill
         self.calls, self.E, self.timeout = tuple(calls), E, timeout
-        self.name = "protocol-" + ">".join(calls) + f"-E{E}" + ("" if timeout is None else "-timeout" if timeout != "sym" else "-symbolic-timeout")
+        self.name = "protocol-" + ">".join(calls) + f"-E{E}" + ("" if timeout is None else "-timeout" if timeout != "sym" else "-symbolic-timeout") + ("-workers-may-be-killed" if kill else "")
         self.site = "AsyncPettingZooVecEnv/protocol"
         self.bounds = {"api_calls": list(calls), "num_envs": E, "timeout_given": timeout is not None,
                        "symbolic": "success flag of every worker reply, result of every poll()" + (", the timeout (any real >= 0), the start instant and how long every poll waits" if timeout == "sym" else "")}
@@ -198,7 +212,7 @@ class Protocol(Case):
             clock = Clock(v)
             timeout = v.real("timeout")
             v.assume(timeout >= 0, "timeout >= 0")
-        pipes = [FaultPipe(v, i, queue, log, clock) for i in range(E)]
+        pipes = [FaultPipe(v, i, queue, log, clock, may_be_killed=self.kill) for i in range(E)]
         procs = [Proc(v, i) for i in range(E)]
         env.num_envs, env.agents, env.possible_agents, env.num_agents = E, ["ag_0"], ["ag_0"], 1
         env.parent_pipes, env.processes, env.error_queue = list(pipes), procs, queue
@@ -281,6 +295,12 @@ class Protocol(Case):
                         res.append(Ob(f"{tag}/state-unchanged-(environment-still-usable)", env._state == state))
                     elif self.timeout is not None and not polls_failed and n_polls < E:
                         res.append(Ob(f"{tag}/with-a-timeout-(also-0)-every-worker-is-polled-before-its-reply-is-read", False, site="AsyncPettingZooVecEnv._poll_pipe_envs/timeout-zero"))
+                    elif any(p.gone for p in pipes):
+                        # a worker was killed while serving the call: the caller learns of it, and the environment can still be closed
+                        res.append(Ob(f"{tag}/a-killed-worker-is-reported-to-the-caller", exc is not None and not isinstance(exc, WouldBlock), site="AsyncPettingZooVecEnv/killed-worker"))
+                        state = AsyncState.DEFAULT
+                        res.append(Ob(f"{tag}/state-back-to-default-after-a-killed-worker", env._state == state, site="AsyncPettingZooVecEnv/killed-worker"))
+                        broken = True
                     elif polls_failed:
                         res.append(Ob(f"{tag}/timeout-is-reported-as-a-timeout", isinstance(exc, mp.TimeoutError)))
                         state = AsyncState.DEFAULT
@@ -305,10 +325,10 @@ class WorkerFault(Case):
     functions = (_async_worker,)
     site = "_async_worker/fault"
 
-    def __init__(self, command):
-        self.command = command
-        self.name = f"worker-fault-in-{command}"
-        self.bounds = {"failing_command": command, "symbolic": "whether the sub-environment raises"}
+    def __init__(self, command, exc="WorkerBoom"):
+        self.command, self.exc = command, exc
+        self.name = f"worker-fault-in-{command}" + ("" if exc == "WorkerBoom" else f"-{exc}")
+        self.bounds = {"failing_command": command, "exception": exc, "symbolic": "whether the sub-environment raises"}
 
     def run(self, v):
         from .c12_vecenv import ScriptPipe, ListQueue as LQ, KINDS
@@ -316,6 +336,8 @@ class WorkerFault(Case):
         from gymnasium import spaces
         boom = v.bool("raises")
         space = KINDS["vector"]()
+        Boom = WorkerBoom if self.exc == "WorkerBoom" else KeyboardInterrupt       # (the worker also reports KeyboardInterrupt)
+        did = []
 
         class Env:
             possible_agents = ["ag_0"]
@@ -329,17 +351,20 @@ class WorkerFault(Case):
 
             def reset(self, seed=None, options=None):
                 if self_case.command == "reset" and bool(boom):
-                    raise WorkerBoom("reset failed")
+                    did.append(1)
+                    raise Boom("reset failed")
                 return {"ag_0": np.zeros(2, np.float32)}, {"ag_0": {}}
 
             def step(self, actions):
                 if self_case.command == "step" and bool(boom):
-                    raise WorkerBoom("step failed")
+                    did.append(1)
+                    raise Boom("step failed")
                 return {"ag_0": np.ones(2, np.float32)}, {"ag_0": 1.0}, {"ag_0": False}, {"ag_0": False}, {"ag_0": {}}
 
             def foo(self):
                 if self_case.command == "_call" and bool(boom):
-                    raise WorkerBoom("call failed")
+                    did.append(1)
+                    raise Boom("call failed")
                 return 7
 
             def close(self):
@@ -351,11 +376,16 @@ class WorkerFault(Case):
         cmds = {"reset": [("reset", {})], "step": [("reset", {}), ("step", [0])], "_call": [("_call", ("foo", (), {}))]}[self.command] + [("close", None)]
         pipe = ScriptPipe(cmds, lambda: None)
         errors = LQ()
-        _async_worker(0, lambda: env, pipe, ScriptPipe([], lambda: None), shm, errors, ["ag_0"])
-        raised = len(errors) > 0
+        escaped = None
+        try:
+            _async_worker(0, lambda: env, pipe, ScriptPipe([], lambda: None), shm, errors, ["ag_0"])
+        except KeyboardInterrupt as ex:          # the worker function let it through: the process would die without reporting
+            escaped = ex
+        raised = bool(did)
         decided = [m for m, _ in pipe.sent]
-        res = [Ob("error-is-queued-iff-the-sub-environment-raised", (len(errors) == 1) == raised and (not raised or errors[0][1] is WorkerBoom)),
-               Ob("failing-command-is-answered-(None, False)", (not raised) or decided[-1] == (None, False)),
+        res = [Ob("the-worker-reports-the-exception-instead-of-dying-with-it", escaped is None, site=self.site + "/unreported"),
+               Ob("error-is-queued-iff-the-sub-environment-raised", (len(errors) == 1) == raised and (not raised or errors[0][1] is Boom), site=self.site + "/unreported"),
+               Ob("failing-command-is-answered-(None, False)", (not raised) or (len(decided) > 0 and decided[-1] == (None, False)), site=self.site + "/unreported"),
                Ob("sub-environment-closed-when-the-worker-exits", Env.closed)]
         Env.closed = False
         return res
@@ -372,7 +402,8 @@ def cases(tier):
     cs += [Protocol(["step_async", "step_wait"], timeout="sym"), Protocol(["reset_async", "reset_wait", "call_async", "call_wait"], timeout="sym"),
            Protocol(["call_async", "close"]), Protocol(["reset_async", "close"]),
            Protocol(["step_async", "close_timeout"], timeout=0.0), Protocol(["call_async", "close_timeout", "close"], timeout="sym"), Protocol(["reset_async", "reset_wait", "close_timeout"], timeout=0.0)]
-    cs += [WorkerFault("reset"), WorkerFault("step"), WorkerFault("_call")]
+    cs += [Protocol(["step_async", "step_wait", "close"], kill=True), Protocol(["reset_async", "close"], kill=True), Protocol(["call_async", "call_wait", "close_timeout"], timeout=0.0, kill=True)]
+    cs += [WorkerFault("reset"), WorkerFault("step"), WorkerFault("_call"), WorkerFault("step", "KeyboardInterrupt"), WorkerFault("reset", "KeyboardInterrupt")]
     if tier == "thorough":
         cs += [Protocol(s, E=3) for s in seqs[:12]] + [Protocol(["step_async", "step_wait", "close"], E=3, timeout=0.0),
                                                        Protocol(["step_async", "step_wait"], E=3, timeout="sym"), Protocol(["step_async", "close"], E=3)]
